@@ -90,6 +90,7 @@ probes!(
     merge_made,
     merge_zero_sources,
     merge_many_sources,
+    merge_of_lockstep_twins,
     restart_made,
     restart_with_history,
     reserve_items_call,
